@@ -336,7 +336,7 @@ fn locate(src: &str, file: &syn::File, spec: &ItemSpec) -> Result<Found, Lost> {
                 }
             }
         }
-        "method" | "impl" => {
+        "method" | "impl" | "impl_const" => {
             let impl_of = spec.impl_of.clone().unwrap_or_default();
             for it in items {
                 if let syn::Item::Impl(im) = it {
@@ -352,6 +352,25 @@ fn locate(src: &str, file: &syn::File, spec: &ItemSpec) -> Result<Found, Lost> {
                     }
                     if spec.kind == "impl" {
                         return Ok(mk(im.span()));
+                    }
+                    if spec.kind == "impl_const" {
+                        // an associated constant of an inherent impl, re-wrapped in its impl header like a method
+                        for ii in &im.items {
+                            if let syn::ImplItem::Const(c) = ii {
+                                if c.ident == name.as_str() {
+                                    let csp = c.span();
+                                    let cr = range(csp);
+                                    let hstart = range(im.impl_token.span()).start;
+                                    let hend = range(im.brace_token.span.open()).start;
+                                    let header = src[hstart..hend].trim_end().to_string();
+                                    return Ok(Found {
+                                        text: format!("{header} {{\n    {}\n}}", &src[cr.clone()]),
+                                        line_start: csp.start().line, line_end: csp.end().line, original: src[cr].to_string(),
+                                    });
+                                }
+                            }
+                        }
+                        continue;
                     }
                     for ii in &im.items {
                         if let syn::ImplItem::Fn(m) = ii {
@@ -699,14 +718,16 @@ pub struct FnFinder<'a> {
 pub struct FnRef<'a> {
     pub sig: &'a syn::Signature,
     pub block: &'a syn::Block,
+    /// byte offset of the first token of the whole item (visibility included)
+    pub item_start: usize,
 }
 impl<'a> Visit<'a> for FnFinder<'a> {
     fn visit_item_fn(&mut self, f: &'a syn::ItemFn) {
-        self.fns.push(FnRef { sig: &f.sig, block: &f.block });
+        self.fns.push(FnRef { sig: &f.sig, block: &f.block, item_start: range(f.span()).start });
         // do not descend: nested fns are not contracted separately
     }
     fn visit_impl_item_fn(&mut self, f: &'a syn::ImplItemFn) {
-        self.fns.push(FnRef { sig: &f.sig, block: &f.block });
+        self.fns.push(FnRef { sig: &f.sig, block: &f.block, item_start: range(f.span()).start });
     }
     fn visit_item_impl(&mut self, i: &'a syn::ItemImpl) {
         visit::visit_item_impl(self, i);
